@@ -271,7 +271,7 @@ def run(tier: str, only=None) -> int:
     ser = harness.stmt_mask(lambda m, q, l: m == "gateway_base" and (q.startswith("_Serializer.") or q.startswith("Unserializer.") or q in ("dumps_internal", "loads_internal", "Channel.send", "Message.to_io", "Message.from_io", "Message.__init__")))
     for gwn in (1, 2):
         P = {"gateways": gwn, "rounds": 1}
-        harness.run_exploration(rep, PID, f"conc/{gwn}gw/stmt", ConcSendScn, P, {"ps": 0, "pl": 1, "free": 0} if tier == "quick" else {"ps": 0, "pl": 2, "free": 1}, stmt=ser, max_execs=2000000)
+        harness.run_exploration(rep, PID, f"conc/{gwn}gw/stmt", ConcSendScn, P, {"ps": 0, "pl": 1, "free": 0} if tier == "quick" else {"ps": 0, "pl": 2, "free": 0}, stmt=ser, max_execs=1500000)
     rep.assumptions += ["the channel clause is sequential: checked on the default schedule of the virtual gateway", "sets are compared as unordered collections, dicts in insertion order, floats by bit pattern"]
     return rep.finish()
 
